@@ -102,43 +102,53 @@ func HC03Interceptor() {
 	deliver(1, 3, false)
 	deliver(2, 0, false)
 	deliver(2, 4, false)
-	ticks := vr.Param("ticks", 2)
+	ticks := vr.Param("ticks", 3)
 	now := time.Unix(1700000000, 0)
+	var reqCount [2][8]int // reference: how often each missing number was listed so far
 	for t := 0; t < ticks; t++ {
+		if t == 1 {
+			// a second, later loss on stream 1 while the first one is still outstanding
+			deliver(0, 6, false)
+			vr.Cover("second loss")
+		}
 		before := nout
 		now = now.Add(time.Second)
 		vr.FireTickers(now)
 		vr.Yield()
 		for s := 0; s < 2; s++ {
-			// expected missing set of stream s
+			// expected: missing numbers of stream s whose request count is below the limit
 			var exp [8]bool
-			nexp := 0
+			nexp, nmiss := 0, 0
 			for off := first[s] + 1; off < highest[s]; off++ {
-				if !got[s][off] {
+				if got[s][off] {
+					continue
+				}
+				nmiss++
+				if maxNacks == 0 || reqCount[s][off] < int(maxNacks) {
 					exp[off] = true
 					nexp++
 				}
+				reqCount[s][off]++
 			}
-			limited := t >= int(maxNacks) && maxNacks > 0
 			cnt := 0
 			for k := before; k < nout && k < len(out); k++ {
 				if out[k].ssrc != uint32(s+1) {
 					continue
 				}
 				cnt++
-				vr.Assert(!limited, "no number is requested more often than the per-packet limit")
-				vr.Assert(out[k].n == nexp, "requested exactly as many numbers as are missing")
+				vr.Assert(out[k].n == nexp, "requested exactly the missing numbers that are below the per-packet limit")
 				for j := 0; j < out[k].n && j < 8; j++ {
 					off := int(out[k].seqs[j] - base)
-					vr.Assert(off >= 0 && off < 8 && exp[off], "requested number is missing, inside the window, after the first packet")
+					vr.Assert(off >= 0 && off < 8 && exp[off], "requested number is missing, inside the window, after the first packet, and not over the limit")
 				}
 			}
-			if nexp > 0 && !limited {
+			if nexp > 0 {
 				vr.Cover("nack sent")
-				vr.Assert(cnt == 1, "one NACK per stream with missing packets per tick")
+				vr.Assert(cnt == 1, "one NACK per stream with requestable missing packets per tick")
 			} else {
-				vr.Assert(cnt == 0, "no NACK when nothing is missing (or the limit is reached)")
+				vr.Assert(cnt == 0, "no NACK when nothing is missing (or every missing number reached the limit)")
 			}
+			_ = nmiss
 		}
 		for k := before; k < nout && k < len(out); k++ {
 			vr.Assert(out[k].ssrc != 3, "stream that did not negotiate NACK is never NACKed")
